@@ -146,6 +146,8 @@ class C11(PropBase):
                 # the list of existing Sids with all ancestors that have a path (per default configuration)
                 L = sorted(ent.get(default, {}).keys())
                 self.entity_lists[(ui, with_junk)] = L
+                if not L:
+                    continue      # nothing of this universe has a path in the default configuration
                 state = rng.getstate()
                 for qi in range(ns):
                     if qi == 1 and ui in self.targets:
